@@ -79,6 +79,8 @@ type scriptOutcome struct {
 	access   string
 	panicked bool
 	ops      []string
+	saves    []string // what was wrong with the files this script saved on its way (empty = every file held the document's own content)
+	nsaves   int
 }
 
 type c07Spec struct {
@@ -92,8 +94,9 @@ type c07Spec struct {
 
 // c07Template is a template document loaded into an engine; a group of documents may be rendered from one of them.
 type c07Template struct {
-	mu  sync.Mutex // renders are serialised: the statement is about the documents, the engine is the business of C17
-	eng *document.TemplateEngine
+	mu     sync.Mutex // renders are serialised: the statement is about the documents, the engine is the business of C17
+	eng    *document.TemplateEngine
+	images []document.ImageInfo // the pictures of the template document (their ids are carried over to every render)
 }
 
 func c07BuildTemplate(seed uint64, workDir string) *c07Template {
@@ -121,7 +124,57 @@ func c07BuildTemplate(seed uint64, workDir string) *c07Template {
 	if _, err := eng.LoadTemplateFromDocument("base", doc); err != nil {
 		return nil
 	}
-	return &c07Template{eng: eng}
+	t := &c07Template{eng: eng}
+	for _, im := range base.Images {
+		if im != nil {
+			t.images = append(t.images, *im)
+		}
+	}
+	return t
+}
+
+// c07SaveCheck saves the script's document into dir (which other scripts of the group save into as well) and compares the file
+// with the document's own serialisation taken immediately before.
+func c07SaveCheck(s *Script, dir, name string, out *scriptOutcome) {
+	if s.Panic != nil || s.Doc == nil {
+		return
+	}
+	path := filepath.Join(dir, name)
+	var want []byte
+	var errB, errS error
+	if cg := core.Catch(func() { want, errB = s.Doc.ToBytes(); errS = s.Doc.Save(path) }); cg != nil || errB != nil {
+		return
+	}
+	out.nsaves++
+	defer os.Remove(path)
+	if errS != nil {
+		out.saves = append(out.saves, "Save failed: "+errS.Error())
+		return
+	}
+	fb, err := os.ReadFile(path)
+	if err != nil {
+		out.saves = append(out.saves, "Save returned nil but the file cannot be read: "+err.Error())
+		return
+	}
+	wp, ok1 := partsOf(want)
+	fp, ok2 := partsOf(fb)
+	if !ok1 || !ok2 {
+		out.saves = append(out.saves, fmt.Sprintf("not a readable package (ToBytes readable=%v, file readable=%v, %d bytes)", ok1, ok2, len(fb)))
+		return
+	}
+	maskCore(wp)
+	maskCore(fp)
+	if d := sameParts(wp, fp); d != "" {
+		out.saves = append(out.saves, "file differs from the document's own ToBytes: "+d)
+	}
+}
+
+// c07Steps runs k-th operation of the script; every third operation is followed by a save into the group's directory.
+func (sp c07Spec) step(s *Script, k int, sharedDir string, idx int, out *scriptOutcome) {
+	s.Run(1, nil)
+	if k%3 == 2 {
+		c07SaveCheck(s, sharedDir, fmt.Sprintf("doc%d-step%d.docx", idx, k), out)
+	}
 }
 
 func (sp c07Spec) start(workDir string, tag string) *Script {
@@ -149,15 +202,23 @@ func (sp c07Spec) start(workDir string, tag string) *Script {
 			t.mu.Unlock()
 			if cg == nil && err == nil && d != nil && d.Body != nil {
 				s.adopt(d)
-				s.Weights = map[string]int{"AddImageFromData": 24, "AddImageFromFile": 4, "Header/Footer": 14, "Notes": 8, "Lists": 8, "AddParagraph": 4, "Table.content": 6, "AddTable": 3, "Properties": 3, "Reopen": 1, "RenderAsTemplate": 0, "Markdown": 0}
+				for i := range t.images { // handles on the pictures the render inherited (copies: a handle is the caller's own object)
+					im := t.images[i]
+					if im.Config != nil {
+						cfg := *im.Config
+						im.Config = &cfg
+					}
+					s.Images = append(s.Images, &im)
+				}
+				s.Weights = map[string]int{"Image.setters": 12, "AddImageFromData": 24, "AddImageFromFile": 4, "Header/Footer": 14, "Notes": 8, "Lists": 8, "AddParagraph": 4, "Table.content": 6, "AddTable": 3, "Properties": 3, "Reopen": 1, "RenderAsTemplate": 0, "Markdown": 0}
 			}
 		}
 	}
 	return s
 }
 
-func (sp c07Spec) finish(s *Script) *scriptOutcome {
-	out := &scriptOutcome{ops: s.Log}
+func (sp c07Spec) finish(s *Script, out *scriptOutcome) *scriptOutcome {
+	out.ops = s.Log
 	if s.Panic != nil {
 		out.panicked = true
 		return out
@@ -179,8 +240,11 @@ func (sp c07Spec) finish(s *Script) *scriptOutcome {
 
 func (sp c07Spec) alone(workDir, tag string) *scriptOutcome {
 	s := sp.start(workDir, tag)
-	s.Run(sp.N, nil)
-	return sp.finish(s)
+	out := &scriptOutcome{}
+	for k := 0; k < sp.N; k++ {
+		sp.step(s, k, s.WorkDir, 0, out)
+	}
+	return sp.finish(s, out)
 }
 
 // c07FreshProcess runs one script in a newly started process and returns its outcome.
@@ -197,6 +261,8 @@ type c07Wire struct {
 	Access   string
 	Panicked bool
 	Ops      []string
+	Saves    []string
+	NSaves   int
 }
 
 // c07Child starts this binary again ("c07child <mode> <workdir>", specs on stdin) and returns the outcomes it prints.
@@ -221,7 +287,7 @@ func c07Child(mode string, specs []c07Spec, workDir string) []*scriptOutcome {
 	}
 	res := make([]*scriptOutcome, len(ws))
 	for i, w := range ws {
-		res[i] = &scriptOutcome{parts: w.Parts, access: w.Access, panicked: w.Panicked, ops: w.Ops}
+		res[i] = &scriptOutcome{parts: w.Parts, access: w.Access, panicked: w.Panicked, ops: w.Ops, saves: w.Saves, nsaves: w.NSaves}
 	}
 	return res
 }
@@ -245,7 +311,7 @@ func C07Child(args []string) {
 	}
 	ws := make([]c07Wire, len(outs))
 	for i, o := range outs {
-		ws[i] = c07Wire{o.parts, o.access, o.panicked, o.ops}
+		ws[i] = c07Wire{o.parts, o.access, o.panicked, o.ops, o.saves, o.nsaves}
 	}
 	b, _ := json.Marshal(ws)
 	os.Stdout.Write(b)
@@ -257,6 +323,9 @@ func c07Concurrent(specs []c07Spec, workDir, tag string) []*scriptOutcome {
 	document.VerifSetCallback(func(string) { runtime.Gosched() })
 	defer document.VerifSetCallback(nil)
 	got := make([]*scriptOutcome, len(specs))
+	shared := filepath.Join(workDir, tag+"-shared") // all documents of the group are saved into one directory
+	os.MkdirAll(shared, 0755)
+	defer os.RemoveAll(shared)
 	var wg sync.WaitGroup
 	start := make(chan struct{})
 	for i := range specs {
@@ -266,11 +335,12 @@ func c07Concurrent(specs []c07Spec, workDir, tag string) []*scriptOutcome {
 			sp := specs[i]
 			<-start
 			s := sp.start(workDir, fmt.Sprintf("%s-g%d", tag, i))
+			out := &scriptOutcome{}
 			for k := 0; k < sp.N; k++ {
-				s.Run(1, nil)
+				sp.step(s, k, shared, i, out)
 				runtime.Gosched()
 			}
-			got[i] = sp.finish(s)
+			got[i] = sp.finish(s, out)
 		}(i)
 	}
 	close(start)
@@ -292,6 +362,10 @@ func c07Compare(res *core.Result, base, got *scriptOutcome, mode string, plain b
 	}
 	if part, d := canonDiff(base.parts, got.parts); part != "" {
 		res.Add(mode+"/"+cls+"/package-differs/"+opc.Class(part), fmt.Sprintf("part %s of a document differs from the same script run alone: %s", part, d), note)
+	}
+	res.Count("files_saved_beside_others", int64(got.nsaves))
+	if len(got.saves) > 0 && len(base.saves) == 0 {
+		res.Add(mode+"/"+cls+"/saved-file-is-not-the-document", fmt.Sprintf("%d of %d files saved while other documents were worked on: %s", len(got.saves), got.nsaves, got.saves[0]), note)
 	}
 	if base.access != got.access {
 		res.Add(mode+"/"+cls+"/accessors-differ", fmt.Sprintf("accessor results differ: alone %s, beside others %s", base.access, got.access), note)
@@ -376,19 +450,24 @@ func c07Case(c *core.Ctx) *core.Result {
 		}
 	case "interleaved": // calls of all scripts alternate in one goroutine
 		live := make([]*Script, nScripts)
+		outs := make([]*scriptOutcome, nScripts)
+		shared := filepath.Join(c.WorkDir, fmt.Sprintf("c%d-ishared", c.Case))
+		os.MkdirAll(shared, 0755)
 		for i, sp := range specs {
 			live[i] = sp.start(c.WorkDir, fmt.Sprintf("c%d-i%d", c.Case, i))
+			outs[i] = &scriptOutcome{}
 		}
 		for step := 0; step < maxOps; step++ {
 			for i, sp := range specs {
 				if step < sp.N {
-					live[i].Run(1, nil)
+					sp.step(live[i], step, shared, i, outs[i])
 				}
 			}
 		}
+		os.RemoveAll(shared)
 		// saved in turn after all edits, first document first
 		for i, sp := range specs {
-			c07Compare(res, base[i], sp.finish(live[i]), mode+c07Sib(siblings), sp.Plain, note(i))
+			c07Compare(res, base[i], sp.finish(live[i], outs[i]), mode+c07Sib(siblings), sp.Plain, note(i))
 		}
 		res.Count("interleaved_groups", 1)
 	case "concurrent": // every script in its own goroutine, released together
